@@ -205,7 +205,7 @@ pub fn check_program(prog: &Program, seed: u64, thorough: bool, rep: &mut Report
 }
 
 pub fn run(p: &Params, rep: &mut Report) {
-    let n = p.size(60, 700);
+    let n = p.size(600, 6000);
     let w = [(Profile::Patterns, 60), (Profile::Boolean, 10), (Profile::Boundary, 10), (Profile::Mixed, 20)];
     for_programs(p, rep, 16, n, &w, (25, 45), |prog, seed, rep| check_program(prog, seed, p.thorough, rep));
 }
